@@ -142,6 +142,15 @@ class C02(C01):
         g = SubsetGen(rng)
         out = []
         for i in range(n):
+            if rng.random() < 0.06:
+                # lower-case booleans exist on the logic pathway only: the same text on the logic pathway, then on
+                # the math pathway and through auto-detection (state carried between calls/instances would show here)
+                e = rng.choice(["true + true", "max(true, 5, false)", "true and 3", "(false or 2) * 3", "abs(true)",
+                                "true", "1 if true else 2", "not false", "[true, false]", "true < 2",
+                                f"true + {g.num(1)}", f"min(false, {g.num(1)})"])
+                for pw in ("logic", "math", None):
+                    out.append({"expr": e, "pathway": pw, "tools": [], "allowed": None, "silent": True, "subset": False})
+                continue
             expr = g.any(rng.randint(1, 4))
             if expr.startswith("("):
                 expr = expr[1:-1] if rng.random() < 0.5 and expr.count("(") == 1 else expr
